@@ -168,7 +168,45 @@ def parse_dump(text):
 
 
 # ---------------------------------------------------------------------------------- programs for the sweep
+GLOBAL_STRUCT = """type Inner struct {
+	X int
+}
+type Point struct {
+	x  int
+	y  int
+	in Inner
+}
+var current Point
+var saved Point
+func snapshot() {
+	saved = current
+}
+func main() {
+	current.x = 1
+	snapshot()
+	first := saved.x
+	current.x = 2
+	snapshot()
+	current.x = 3
+	second := saved.x
+	current.x = 4
+	current.in.X = 7
+	snapshot()
+	current.y = 40
+	current.in.X = 8
+	current.x = 5
+	fmt.Println(first, second, saved.x, saved.y, saved.in.X)
+	for i := 0; i < 3; i++ {
+		current.y = i
+		saved = current
+		current.y = 100 + i
+		fmt.Println(saved.y, current.y)
+	}
+}
+"""
 CORPUS = [
+    # a Store to a package-level variable executed more than once (global-reference cache), struct value semantics
+    ("global-struct-store-repeated", GLOBAL_STRUCT, ""),
     ("param-shadows-const-defer", 'func f(limit int) int { defer func() { }(); return limit + 1 }\nfunc main() { fmt.Println(f(3), limit) }', "const limit = 100\n"),
     ("param-shadows-const-closure", 'func f(limit int) int { g := func() int { return limit * 2 }; return g() + limit }\n'
                                     'func main() { fmt.Println(f(3), limit) }', "const limit = 100\n"),
@@ -220,7 +258,9 @@ def gen_program(rng):
            "func mk(a int) func() int { x := a; f := func() int { x = x + 1; return x }; return f }",
            # parameters named like package-level constants, in functions that are not register-eligible (closure / defer)
            "func shadowc(KU int) int { d := func() int { return KU * 2 }; return d() + KU }",
-           "func shadowd(KT int) int { defer func() { }(); KT = KT + 1; return KT }"]
+           "func shadowd(KT int) int { defer func() { }(); KT = KT + 1; return KT }",
+           # package-level struct values copied by a Store that runs more than once
+           "type P struct {\n\ta int\n\tb int\n}", "var cur P", "var sav P", "func snap() { sav = cur }"]
     body = []
     for i in range(nv):
         k = rng.choice(KINDS)
@@ -229,7 +269,7 @@ def gen_program(rng):
         body.append("var %s %s = %s" % (n, k, lit_for(rng, k)))
     for _ in range(rng.randint(2, 6)):
         n, k = rng.choice(names)
-        form = rng.randint(0, 12)
+        form = rng.randint(0, 13)
         if form == 0:
             body.append("%s = %s + %s" % (n, n, lit_for(rng, rng.choice([k, k, "int", "string", "bool"]))))
         elif form == 1 and k not in ("bool", "string"):
@@ -253,6 +293,9 @@ def gen_program(rng):
             body.append("c%d := mk(%d); c%d(); fmt.Println(c%d())" % (len(body), rng.randint(0, 9), len(body), len(body)))
         elif form == 9:
             body.append("h%d := func() int { g = g + 1; return g }; fmt.Println(h%d(), h%d())" % (len(body), len(body), len(body)))
+        elif form == 13:
+            body.append("for r := 0; r < %d; r++ { cur.a = r; snap(); cur.a = cur.a + 10; cur.b = cur.b + 1; fmt.Println(sav.a, sav.b, cur.a) }"
+                        % rng.randint(2, 4))
         elif form == 12:
             body.append("fmt.Println(shadowc(%d), shadowd(%d), KU)" % (rng.randint(0, 9), rng.randint(0, 9)))
         elif form == 10 and k not in ("bool", "string", "float64"):
@@ -386,7 +429,7 @@ def run(ck):
             f.write(src)
         srcs[name] = src
         corpus = name.startswith("corpus") or name == "replay"
-        pmodes = modes if (name == "replay" or not quick or (corpus and pi < 13)) else [modes[pi % 3]]
+        pmodes = modes if (name == "replay" or not quick or (corpus and pi < 14)) else [modes[pi % 3]]
         for mode in pmodes:
             if not quick or name == "replay":
                 cfgs = CONFIGS
@@ -400,9 +443,21 @@ def run(ck):
         if pi < 3:
             ck.sample({"program": name, "source": src[:300]})
 
+    # one private HOME/TMPDIR per worker thread: concurrent ego processes sharing a TMPDIR race on creating ego-system.db
+    import threading
+    envs, elock = {}, threading.Lock()
+
     def one(t):
         name, path, mode, cfg = t
-        return t, run_cfg(ego, env, ck.work, path, mode, cfg or {})
+        tid = threading.get_ident()
+        with elock:
+            if tid not in envs:
+                envs[tid] = vf.ego_env(os.path.join(ck.work, "w%d" % len(envs)))
+        return t, run_cfg(ego, envs[tid], ck.work, path, mode, cfg or {})
+    # warm-up, alone: the first ego process creates ego-system.db beside the binary; concurrent first runs of a freshly
+    # built binary race on it ("table dsns already exists")
+    if tasks:
+        one(tasks[0])
     with ThreadPoolExecutor(max_workers=8) as ex:
         results = list(ex.map(one, tasks))
     base = {(t[0], t[2]): r for t, r in results if t[3] is None}
